@@ -20,11 +20,29 @@ Definition is_alphabetic (c : char) : bool :=
 Definition map_char (m : list (N * list N)) (c : char) : list char :=
   match find (fun e => fst e =? c) m with Some e => snd e | None => [c] end.
 
-(* str::to_lowercase / to_uppercase, character by character.  (Rust lowers U+03A3 to U+03C2 at
-   the end of a word; strings containing U+03A3 are outside the correspondence alphabet.) *)
-Definition to_lowercase (s : str) : str :=
-  flat_map (fun c => if c <? 128 then [if (65 <=? c) && (c <=? 90) then c + 32 else c]
-                     else map_char Gen.UnicodeTabs.lower_map c) s.
+(* str::to_lowercase / to_uppercase, character by character, except U+03A3: Rust lowers it to
+   U+03C2 (final sigma) when, in the original string, the nearest character before it that is not
+   case-ignorable is cased, and the nearest such character after it is not (alloc::str
+   map_uppercase_sigma / case_ignorable_then_cased), and to U+03C3 otherwise.  The two classes are
+   regenerated from std's behaviour on every run (Gen/UnicodeTabs.v). *)
+Definition case_ignorable (c : char) : bool := in_ranges Gen.UnicodeTabs.case_ignorable_ranges c.
+Definition cased_ni (c : char) : bool := in_ranges Gen.UnicodeTabs.cased_not_ignorable_ranges c.
+Fixpoint ci_then_cased (l : list char) : bool :=
+  match l with
+  | [] => false
+  | c :: r => if case_ignorable c then ci_then_cased r else cased_ni c
+  end.
+Definition lower_char (c : char) : list char :=
+  if c <? 128 then [if (65 <=? c) && (c <=? 90) then c + 32 else c]
+  else map_char Gen.UnicodeTabs.lower_map c.
+Fixpoint lower_go (before_rev : list char) (s : str) : str :=
+  match s with
+  | [] => []
+  | c :: r =>
+      (if c =? 931 then [if ci_then_cased before_rev && negb (ci_then_cased r) then 962 else 963]
+       else lower_char c) ++ lower_go (c :: before_rev) r
+  end.
+Definition to_lowercase (s : str) : str := lower_go [] s.
 Definition to_uppercase (s : str) : str :=
   flat_map (fun c => if c <? 128 then [if (97 <=? c) && (c <=? 122) then c - 32 else c]
                      else map_char Gen.UnicodeTabs.upper_map c) s.
